@@ -137,6 +137,22 @@ def resource_heavy(f: str, arg: Any) -> bool:
         return False
 
 
+def _as_int(v: Any):
+    if isinstance(v, bool) or v is None:
+        return 0
+    try:
+        return int(float(v)) if not isinstance(v, int) else v
+    except (TypeError, ValueError, OverflowError):
+        return None
+
+
+def long_range(a: Any, b: Any) -> bool:
+    ia, ib = _as_int(a), _as_int(b)
+    if ia is None or ib is None:
+        return False
+    return 10_000 < ib - ia < 2**62
+
+
 def gen_filter_case(rng, fnames: list[str], pool: list[Any]) -> dict[str, Any]:
     f = rng.choice(fnames)
     if f == "json":
@@ -236,6 +252,13 @@ TAG_ARG_TEMPLATES = [
 def gen_tagarg_case(rng, pool: list[Any]) -> dict[str, Any]:
     tplt = rng.choice(TAG_ARG_TEMPLATES)
     a, b = rng.choice(pool), rng.choice(pool)
+    for _ in range(20):
+        # workload hazards (host resources, not type containment): a range of 10^4 .. 2^62 items is iterated for hours, json's indent
+        # argument allocates indent x depth spaces; such argument pairs are drawn again
+        if ("(A..B)" in tplt and long_range(a, b)) or ("json: B" in tplt and resource_heavy("json", b)):
+            a, b = rng.choice(pool), rng.choice(pool)
+        else:
+            break
     data: dict[str, Any] = {"xs": [1, 2, 3, 4, 5], "h": {"a": 1}, "s": "str"}
     ea, d = _val_expr(a, "va", rng.random() < 0.5)
     data.update(d)
